@@ -59,6 +59,11 @@ class AbstractBasicStatement(AbstractBasicConstruct):
 
         return BasicVar(val, is_str_expr=is_str_exp)
 
+    def share_temps_with(self, other: "AbstractBasicStatement") -> None:
+        """Number this statement's temporaries after those of other."""
+        self._temps = other._temps
+        self._str_temps = other._str_temps
+
     def transform_function_to_call(self, exp):
         exp.set_var(self.get_new_temp(exp.is_str_expr))
         self.pre_assignment_statements.append(exp.statement)
